@@ -802,10 +802,10 @@ Fixpoint loop_named (B : benv) (fuel : nat) (terms : bool) (s : pst) : bool :=
     end
   end.
 
-Definition toks_of (raw : list (token * position)) : list token :=
+Definition legal_toks (raw : list (token * position)) : list token :=
   map fst (filter (fun tp => negb (is_illegal (fst tp))) raw).
 (* the parser as newParser creates it: the builtin functions *)
-Definition init_state (B : benv) (toks : list token) : pst :=
+Definition newparser_state (B : benv) (toks : list token) : pst :=
   {| cs := state_at tEOF toks []; scs := [];
      fns := map (fun nb => (fst nb, {| fi_nil := snd nb; fi_ret := true;
                                       fi_arity := match lookup_arity (fst nb) (b_arity B) with Some a => a | None => None end;
@@ -813,15 +813,15 @@ Definition init_state (B : benv) (toks : list token) : pst :=
      bodies := []; hds := [] |}.
 (* the function table after the signature pre-pass (parseFuncSignatures): builtins and one entry per `func` signature *)
 Definition fn_table (B : benv) (raw : list (token * position)) : list (str * finfo) :=
-  match signatures B tEOF (toks_of raw) (init_state B (toks_of raw)) with Ok _ s1 => fns s1 | _ => [] end.
+  match signatures B tEOF (legal_toks raw) (newparser_state B (legal_toks raw)) with Ok _ s1 => fns s1 | _ => [] end.
 Definition globals_scope (B : benv) : scope :=
   {| sc_vars := map (fun n => {| v_name := n; v_used := true; v_pos := 0 |}) (b_globals B);
      sc_ret := false; sc_retval := false; sc_loop := false |}.
-Definition main_state (B : benv) (raw : list (token * position)) : pst :=
-  {| cs := state_at tEOF (toks_of raw) []; scs := [globals_scope B]; fns := fn_table B raw; bodies := []; hds := [] |}.
+Definition loop_start_state (B : benv) (raw : list (token * position)) : pst :=
+  {| cs := state_at tEOF (legal_toks raw) []; scs := [globals_scope B]; fns := fn_table B raw; bodies := []; hds := [] |}.
 (* the statement loop of this parse never arrives at a `func` keyword that is not followed by an identifier *)
 Definition funcs_named (B : benv) (raw : list (token * position)) : bool :=
-  loop_named B (fuel_of (toks_of raw)) false (main_state B raw).
+  loop_named B (fuel_of (legal_toks raw)) false (loop_start_state B raw).
 
 
 (* ---------- wire format ---------- *)
